@@ -73,9 +73,9 @@ func TestC04(t *testing.T) {
 	}
 	scens := []scen{
 		// all nine lookups standing; links come, go, carry streams; time passes
-		{"standing-lookups", &tch.Config{Links: links, Lookups: lookups, StaticLookups: true, Streams: true, Tick: true}, 5, 7},
+		{"standing-lookups", &tch.Config{Links: links, Lookups: lookups, StaticLookups: true, Streams: true, Tick: true}, 5, 8},
 		// lookups added and removed by events (late observers see the initial value set)
-		{"toggled-lookups", &tch.Config{Links: links, Lookups: lookups, Streams: true, Tick: true}, 4, 5},
+		{"toggled-lookups", &tch.Config{Links: links, Lookups: lookups, Streams: true, Tick: true}, 4, 6},
 	}
 	for _, sc := range scens {
 		d := sc.dq
